@@ -3,6 +3,7 @@
 Oracle: vlib.layout (a decoder written from the documentation only) recovers
 the written value from the raw bytes, and the structural clauses hold."""
 
+from hypothesis import strategies as st
 from vlib.core import Outcome, fail, sut, is_raised, HarnessError
 from vlib import typegen as tg
 from vlib import mat, layout
@@ -33,8 +34,16 @@ def budget(tier):
     return {"examples": 1000 if tier == "quick" else 8000}
 
 
+@st.composite
+def cases(draw, tier):
+    c = draw(c01.cases(tier))
+    # one case in five: every struct class is the struct generated for a HybridClass declared with the same fields
+    c["via_hybrid"] = draw(st.integers(0, 4)) == 0
+    return c
+
+
 def strategy(tier):
-    return c01.cases(tier)
+    return cases(tier)
 
 
 def essential_labels(tier):
